@@ -9,6 +9,12 @@
 //         mode=mt    8 threads (barrier start) each hashing its own inputs over and over while the others
 //                    do the same; every result is compared with the single-threaded expected value from the
 //                    oracle.  Built as asan (values) and as tsan (races that happen not to corrupt a value).
+//         prior-history part (default mode, --arg prior_cases=<file>): a small fixed pool of inputs (oracle values in the
+//                    same case-file format, kind 7) is run through EVERY function of the property on a FRESH thread right
+//                    after that thread made one (or two) unrelated earlier uses of phosg's shared helpers
+//                    (vf_history.hh: string_printf of every length, long runs, join/split/fgets ladders, escapers,
+//                    formatters).  hex() goes through string_printf; a helper that keeps per-thread state makes a digest
+//                    rendering depend on what the thread formatted before - state a hash-only thread never reaches.
 // vf::poison_errno() is called directly before every call into phosg (correct code never reads a stale errno).
 #include <ctype.h>
 
@@ -19,6 +25,7 @@
 
 #include "Hash.hh"
 #include "common.hh"
+#include "vf_history.hh"
 
 
 // ---- early-call probe -------------------------------------------------------------------------------
@@ -100,7 +107,7 @@ static string lenclass(size_t n) {
 }
 
 static string describe(const Case& k) {
-  string d = fmt("case=%u kind=%s fill=%s len=%u", k.id, k.kind == 1 ? "random" : k.kind == 3 ? "concurrency-set" : k.kind == 4 ? "length-ladder" : k.kind == 5 ? "dense-length-sweep" : k.kind == 6 ? "digest-shape-directed" : "enumerated-length", FILLS[k.fill & 3], k.len);
+  string d = fmt("case=%u kind=%s fill=%s len=%u", k.id, k.kind == 1 ? "random" : k.kind == 3 ? "concurrency-set" : k.kind == 4 ? "length-ladder" : k.kind == 5 ? "dense-length-sweep" : k.kind == 6 ? "digest-shape-directed" : k.kind == 7 ? "prior-history-pool" : "enumerated-length", FILLS[k.fill & 3], k.len);
   if (k.len <= 80) d += " data=" + vf::hex(k.data, k.len);
   else d += " data[0..32)=" + vf::hex(k.data, 32) + "... (regenerate: vf/oracles/c10.py)";
   return d;
@@ -569,29 +576,157 @@ static void run_mt(const vector<Case>& cases) {
   C->sample(fmt("%u threads x %u rounds, each thread hashing its own %zu inputs (lengths 0..130, 183..193, 247..257, 311..321, random) with MD5/SHA1/SHA256/crc32/fnv1a32/fnv1a64; every result compared with hashlib/zlib/recurrence", NTHREADS, rounds, cases.size() / NTHREADS));
 }
 
-int main(int argc, char** argv) {
-  vf::Ctx& c = vf::init(argc, argv);
-  C = &c;
-  string base = c.arg("cases");
-  if (base.empty()) {
-    fprintf(stderr, "[harness-error] --arg cases=<prefix> missing\n");
-    return 3;
+// ---- prior-history part ------------------------------------------------------------------------------
+// Expected values: the pool file written by vf/oracles/c10.py (hashlib / zlib / recurrence), same record format as the
+// main case files.  Nothing here computes an expected value with phosg.  vf::fmt / vf::hex are the harness's own
+// (vsnprintf into a local buffer), so between the prior and the judged calls the thread makes no other phosg call.
+static string show(const string& x) {  // a rendering with every non-printable byte spelled out (a truncated buffer shows up as \x00)
+  string r;
+  for (unsigned char ch : x) r += (ch >= 0x20 && ch < 0x7F && ch != '\\') ? string(1, (char)ch) : fmt("\\x%02x", ch);
+  return r;
+}
+
+struct PoolItem {
+  Case k;
+  uint8_t* blk;  // exact-size heap block
+  string s;
+};
+static vector<PoolItem> g_pool;
+static size_t g_mini_seq;
+
+static const char* DIGEST_NAMES[3] = {"md5", "sha1", "sha256"};
+
+template <typename H>
+static void prior_digest(const char* name, const PoolItem& it, const uint8_t* expect, size_t dlen, const vf::Prior& pr, const string& hist) {
+  const Case& k = it.k;
+  string want_bin((const char*)expect, dlen), want_hex = vf::hex(expect, dlen);
+  string fam = pr.family;
+  auto bad = [&](const char* rendering, const char* overload, const string& got) {
+    C->violation(fmt("%s:%s:after-prior:%s", name, rendering, fam.c_str()),
+        fmt("%s.%s() on a fresh thread differs from hashlib after the thread's earlier, unrelated use of phosg helpers", name, rendering),
+        hist + " | " + fmt("%s(%s).%s() ", name, overload, rendering) + describe(k) + " got=" + got + " expected=" + want_hex);
+  };
+  C->crumb_s(fmt("after-prior %s: %s(ptr,size) case=%u len=%u", pr.name.c_str(), name, k.id, k.len));
+  {
+    // (ptr,size): hex() first, then bin()
+    PH_CTOR(H h(it.blk, k.len));
+    string x = PH(h.hex());
+    string b = PH(h.bin());
+    C->evaluations += 2;
+    if (lower(x) != want_hex) bad("hex", "ptr,size", show(x) + fmt(" (%zu chars)", x.size()));
+    if (b != want_bin) bad("bin", "ptr,size", vf::hex(b));
   }
-  bool mt = c.arg("mode") == "mt";
-  g_one_byte_block = (uint8_t*)malloc(1);
-  string path = fmt("%s.%u.bin", base.c_str(), c.shard);
+  C->crumb_s(fmt("after-prior %s: %s(string) case=%u len=%u", pr.name.c_str(), name, k.id, k.len));
+  {
+    // std::string overload: bin() first, then hex() twice (the second call sees the state the first one left)
+    PH_CTOR(H h(it.s));
+    string b = PH(h.bin());
+    string x = PH(h.hex());
+    string x2 = PH(h.hex());
+    C->evaluations += 3;
+    if (b != want_bin) bad("bin", "std::string", vf::hex(b));
+    if (lower(x) != want_hex) bad("hex", "std::string", show(x) + fmt(" (%zu chars)", x.size()));
+    if (lower(x2) != want_hex) bad("hex", "std::string, second hex() call on the same object", show(x2) + fmt(" (%zu chars)", x2.size()));
+  }
+}
+
+static void prior_input(const PoolItem& it, unsigned order, const vf::Prior& pr, const string& hist) {
+  const Case& k = it.k;
+  const uint8_t* p = it.blk;
+  size_t n = k.len;
+  const char* fam = pr.family.c_str();
+  // the three digests, starting with digest number `order` (which rendering is the thread's FIRST formatted hash matters)
+  for (unsigned j = 0; j < 3; j++) {
+    unsigned d = (order + j) % 3;
+    if (d == 0) prior_digest<phosg::MD5>("md5", it, k.md5, 16, pr, hist);
+    if (d == 1) prior_digest<phosg::SHA1>("sha1", it, k.sha1, 20, pr, hist);
+    if (d == 2) prior_digest<phosg::SHA256>("sha256", it, k.sha256, 32, pr, hist);
+  }
+  string where = hist + " | " + describe(k);
+  C->crumb_s(fmt("after-prior %s: crc32/fnv1a case=%u len=%u", pr.name.c_str(), k.id, k.len));
+  C->evaluations += 2;
+  uint32_t c1 = PH(phosg::crc32(p, n)), c2 = PH(phosg::crc32(p, n, 0));
+  if (c1 != k.crc || c2 != k.crc)
+    C->violation(fmt("crc32:value:after-prior:%s", fam), "crc32(x) on a fresh thread differs from zlib.crc32(x) after the thread's earlier use of phosg helpers", where + fmt(" got=%08x/%08x expected=%08x", c1, c2, k.crc));
+  C->evaluations += 4;
+  uint32_t f1 = PH(phosg::fnv1a32(p, n)), f2 = PH(phosg::fnv1a32(it.s));
+  uint64_t g1 = PH(phosg::fnv1a64(p, n)), g2 = PH(phosg::fnv1a64(it.s));
+  if (f1 != k.fnv32 || f2 != k.fnv32)
+    C->violation(fmt("fnv1a32:value:after-prior:%s", fam), "fnv1a32 (ptr,size / string) on a fresh thread differs from the recurrence after the thread's earlier use of phosg helpers", where + fmt(" got=%08x/%08x expected=%08x", f1, f2, k.fnv32));
+  if (g1 != k.fnv64 || g2 != k.fnv64)
+    C->violation(fmt("fnv1a64:value:after-prior:%s", fam), "fnv1a64 (ptr,size / string) on a fresh thread differs from the recurrence after the thread's earlier use of phosg helpers", where + fmt(" got=%016" PRIx64 "/%016" PRIx64 " expected=%016" PRIx64, g1, g2, k.fnv64));
+  if (k.seeded_flags & 1) {
+    C->evaluations++;
+    uint32_t c = PH(phosg::crc32(p, n, k.seed32));
+    if (c != k.crc_s)
+      C->violation(fmt("crc32:value:running-value:after-prior:%s", fam), "crc32(x, running value) on a fresh thread differs from zlib.crc32(x, running value) after the thread's earlier use of phosg helpers", where + fmt(" running=%08x got=%08x expected=%08x", k.seed32, c, k.crc_s));
+  }
+  if (k.seeded_flags & 2) {
+    C->evaluations += 2;
+    uint32_t f = PH(phosg::fnv1a32(it.s, k.seed32));
+    uint64_t g = PH(phosg::fnv1a64(p, n, k.seed64));
+    if (f != k.fnv32_s)
+      C->violation(fmt("fnv1a32:value:running-value:after-prior:%s", fam), "fnv1a32(string, h) on a fresh thread differs from the recurrence started at h after the thread's earlier use of phosg helpers", where + fmt(" h=%08x got=%08x expected=%08x", k.seed32, f, k.fnv32_s));
+    if (g != k.fnv64_s)
+      C->violation(fmt("fnv1a64:value:running-value:after-prior:%s", fam), "fnv1a64(ptr,size,h) on a fresh thread differs from the recurrence started at h after the thread's earlier use of phosg helpers", where + fmt(" h=%016" PRIx64 " got=%016" PRIx64 " expected=%016" PRIx64, k.seed64, g, k.fnv64_s));
+  }
+  // chaining pairs: f(suffix, f(prefix)) == expected f(whole), at the oracle's cut points
+  for (uint32_t cut : k.splits) {
+    if (cut > n) continue;
+    const uint8_t* q = p + cut;
+    C->crumb_s(fmt("after-prior %s: chain case=%u len=%u cut=%u", pr.name.c_str(), k.id, k.len, cut));
+    C->evaluations += 5;
+    string a((const char*)p, cut), b((const char*)q, n - cut);
+    uint32_t c = PH(phosg::crc32(q, n - cut, PH(phosg::crc32(p, cut))));
+    uint32_t f = PH(phosg::fnv1a32(q, n - cut, PH(phosg::fnv1a32(p, cut))));
+    uint64_t g = PH(phosg::fnv1a64(q, n - cut, PH(phosg::fnv1a64(p, cut))));
+    uint32_t fs = PH(phosg::fnv1a32(b, PH(phosg::fnv1a32(a))));
+    uint64_t gs = PH(phosg::fnv1a64(b, PH(phosg::fnv1a64(a))));
+    if (c != k.crc)
+      C->violation(fmt("crc32:chain:after-prior:%s", fam), "crc32(b, crc32(a)) on a fresh thread differs from zlib.crc32(a+b) after the thread's earlier use of phosg helpers", where + fmt(" cut=%u got=%08x expected=%08x", cut, c, k.crc));
+    if (f != k.fnv32 || fs != k.fnv32)
+      C->violation(fmt("fnv1a32:chain:after-prior:%s", fam), "fnv1a32(b, fnv1a32(a)) on a fresh thread differs from the recurrence over a+b after the thread's earlier use of phosg helpers", where + fmt(" cut=%u got=%08x/%08x expected=%08x", cut, f, fs, k.fnv32));
+    if (g != k.fnv64 || gs != k.fnv64)
+      C->violation(fmt("fnv1a64:chain:after-prior:%s", fam), "fnv1a64(b, fnv1a64(a)) on a fresh thread differs from the recurrence over a+b after the thread's earlier use of phosg helpers", where + fmt(" cut=%u got=%016" PRIx64 "/%016" PRIx64 " expected=%016" PRIx64, cut, g, gs, k.fnv64));
+  }
+}
+
+static void run_prior_history() {
+  if (g_pool.empty()) return;
+  // the catalogue is spread over the shards (prior index % nshards == shard); every prior of this shard is used once per
+  // digest order (which of MD5 / SHA1 / SHA256 is the first hash the fresh thread formats), plus two-step histories.
+  size_t pairs = C->qt((size_t)2, (size_t)8);
+  size_t threads = 0;
+  for (unsigned order = 0; order < 3; order++) {
+    threads += vf::for_each_prior(*C, [&](const vf::Prior& pr) {
+      bool two = pr.name.find(" then ") != string::npos;
+      string hist = "earlier on this (fresh) thread: " + pr.name + fmt("; then, digests in the order starting with %s", DIGEST_NAMES[order]);
+      size_t seq = g_mini_seq++;
+      for (size_t j = 0; j < 2; j++) prior_input(g_pool[(seq * 2 + j) % g_pool.size()], order, pr, hist);
+      C->cls(fmt("after-prior:%s:first=%s", two ? "two-step" : pr.family.c_str(), DIGEST_NAMES[order]));
+      C->count("prior_history_minis");
+      if (two) C->count("prior_history_two_step_minis");
+    }, C->nshards, C->shard, pairs);
+  }
+  C->count("prior_history_fresh_threads", threads);
+  C->sample(fmt("prior-history: %zu fresh threads in this shard, each: one (or two) unrelated earlier uses of phosg helpers, then 2 of %zu pool inputs through MD5/SHA1/SHA256 hex()+bin() (both overloads), crc32, fnv1a32/64, seeded forms and chaining pairs; all vs hashlib/zlib/recurrence", threads, g_pool.size()));
+}
+
+// reads one case file; buf must outlive the cases (they point into it)
+template <typename F>
+static void load_cases(const string& path, vector<uint8_t>& buf, F&& each) {
   FILE* f = fopen(path.c_str(), "rb");
   if (!f) {
     fprintf(stderr, "[harness-error] cannot open %s\n", path.c_str());
-    return 3;
+    exit(3);
   }
   fseek(f, 0, SEEK_END);
   long sz = ftell(f);
   fseek(f, 0, SEEK_SET);
-  vector<uint8_t> buf((size_t)sz);
+  buf.resize((size_t)(sz < 0 ? 0 : sz));
   if (sz < 8 || fread(buf.data(), 1, (size_t)sz, f) != (size_t)sz || memcmp(buf.data(), "C10C", 4) != 0) {
     fprintf(stderr, "[harness-error] bad case file %s\n", path.c_str());
-    return 3;
+    exit(3);
   }
   fclose(f);
   uint32_t ncases;
@@ -603,7 +738,6 @@ int main(int argc, char** argv) {
       exit(3);
     }
   };
-  vector<Case> all;
   for (uint32_t i = 0; i < ncases; i++) {
     Case k;
     need(12);
@@ -637,17 +771,50 @@ int main(int argc, char** argv) {
     k.splits.resize(k.nsplits);
     if (k.nsplits) memcpy(k.splits.data(), &buf[pos], 4 * (size_t)k.nsplits);
     pos += 4 * (size_t)k.nsplits;
+    each(k);
+  }
+  if (pos != buf.size()) {
+    fprintf(stderr, "[harness-error] trailing bytes in case file %s\n", path.c_str());
+    exit(3);
+  }
+}
+
+int main(int argc, char** argv) {
+  vf::Ctx& c = vf::init(argc, argv);
+  C = &c;
+  string base = c.arg("cases");
+  if (base.empty()) {
+    fprintf(stderr, "[harness-error] --arg cases=<prefix> missing\n");
+    return 3;
+  }
+  bool mt = c.arg("mode") == "mt";
+  g_one_byte_block = (uint8_t*)malloc(1);
+  vector<uint8_t> buf;
+  vector<Case> all;
+  load_cases(fmt("%s.%u.bin", base.c_str(), c.shard), buf, [&](const Case& k) {
     if (mt)
       all.push_back(k);
     else
       run_case(k);
     c.count("cases");
-  }
-  if (pos != buf.size()) {
-    fprintf(stderr, "[harness-error] trailing bytes in case file %s\n", path.c_str());
-    return 3;
-  }
+  });
   check_early();
   if (mt) run_mt(all);
+  string pool_path = c.arg("prior_cases");
+  vector<uint8_t> pool_buf;
+  if (!mt && !pool_path.empty()) {
+    load_cases(pool_path, pool_buf, [&](const Case& k) {
+      PoolItem it{k, (uint8_t*)malloc(k.len ? k.len : 1), string((const char*)k.data, k.len)};
+      if (!it.blk) {
+        fprintf(stderr, "[harness-error] malloc\n");
+        exit(3);
+      }
+      if (k.len) memcpy(it.blk, k.data, k.len);
+      g_pool.push_back(it);
+      c.count("prior_history_pool_inputs");
+    });
+    run_prior_history();
+    for (auto& it : g_pool) free(it.blk);
+  }
   return c.finish();
 }
